@@ -101,11 +101,29 @@ def part1_maps(ck, tier):
     ck.extra["mapTotal"] = total
     ck.extra["aliveTotal"] = alive_total
     ck.extra["undischarged"] = [t for t in L.TRANSPORTS if t not in total] + [t + ":alive" for t in L.TRANSPORTS if t not in alive_total]
+    # the domain hypothesis, made visible: out-of-domain rows with a non-allowed act, each justified by a reviewed rule (the translator
+    # fails on an unjustified one; Lean decides that there is no other such row: out_of_domain_bad_rows_listed)
+    try:
+        imp, rules = G.assumed_impossible(L, emap)
+        ck.extra["assumed_impossible_rows"] = len(imp)
+        used = sorted({i for *_, i in imp})
+        ck.extra["assumed_impossible_rules_used"] = f"{len(used)} of {len(rules)}"
+        ck.extra["assumed_impossible_stale_rules"] = [r["why"][:60] for i, r in enumerate(rules) if i not in used]
+    except Exception as e:
+        ck.proof_broken("boundary domain audit (tools/gen/c08_impossible.json)", repr(e))
+    try:
+        tl = run_model("C08", [f"total {t}" for t in L.TRANSPORTS])
+        ck.extra["promptTotal"] = [t for t, l in zip(L.TRANSPORTS, tl) if l.split(" ")[2] == "true"]
+        lean_total = [t for t, l in zip(L.TRANSPORTS, tl) if l.split(" ")[0] == "true"]
+        if lean_total != total:
+            ck.proof_broken("mapTotalB: Lean and the Python twin differ", f"lean={lean_total} python={total}")
+    except Exception as e:
+        ck.proof_broken("model driver Drv/C08.lean (total)", repr(e))
     # 1b oracle on every in-domain entry of the observed tables (the obligation's witnesses, replayed on the real transport
     #    by the observation itself)
     for (t, m, o), act in sorted(emap.items()):
         if not L.in_domain(t, m, o):
-            ck.extra["advisory_out_of_domain_entries"] = ck.extra.get("advisory_out_of_domain_entries", 0) + 1
+            ck.extra["out_of_domain_entries"] = ck.extra.get("out_of_domain_entries", 0) + 1      # the non-allowed ones: assumed_impossible_rows
             continue
         ck.case(("map", t, m, o), nontrivial=o not in ("data", "more"), sample={"transport": t, "method": m, "outcome": o, "act": act},
                 tags=(f"t={t}", f"m={m}", f"o={o}", "act=" + short(act).split(":")[0]))
@@ -390,31 +408,37 @@ def part1_telnet_streams(ck, tier):
     # channel_lock=True with the REAL lock and the real timeout mechanism (thread pool for TelnetTransport, wait_for for asyncio), small finite
     # timeout_ops: drop during login, strictly inside a command, in plain output, near the end; then a second and a third operation
     lock_cases = [(t, o, k, True) for t in ("telnet", "asynctelnet") for o in ("empty", "reset") for k in (30, 103, 110, 160)]
+    # the peer resets / closes the session while option replies are still owed: the loss is met by the send() of the k-th negotiation
+    # reply (k = 0..8: during login and after), on both twins (asyncio writers never raise: there the next read meets the reset)
+    reply_cases = [(t, o, None, False, k) for t in ("telnet", "asynctelnet") for o in ("reset", "epipe") for k in range(0, 9)]
     try:
         results = R.run_stream_cases(str(REPO), cases)
         results += R.run_stream_cases(str(REPO), lock_cases, per_case_limit=8.0, timeout_ops=0.5)
+        results += R.run_stream_cases(str(REPO), reply_cases)
     except Exception as e:
         raise RigError(f"telnet stream worker: {e!r}")
-    cases = cases + lock_cases
+    cases = [c + (None,) for c in cases + lock_cases] + reply_cases
     nores = [c for c, r in zip(cases, results) if r is None or (r["res"] is None and not r["killed"])]
     ck.extra["telnet_stream_lock_cases"] = len(lock_cases)
     if len(nores) > len(cases) // 10:
         r0 = next(r for r in results if r is None or r["res"] is None)
         raise RigError(f"{len(nores)} of {len(cases)} telnet stream cases gave no result: {(r0 or {}).get('err', '')}")
-    for (t, o, k, lock), r in zip(cases, results):
+    for (t, o, k, lock, replyk), r in zip(cases, results):
         if r is None or (r["res"] is None and not r["killed"]):
             ck.extra["stream_cases_without_result"] = ck.extra.get("stream_cases_without_result", 0) + 1
             continue
-        r = dict(r, spec={"rig": t, "mode": o, "offset": k, "channel_lock": lock})
+        r = dict(r, spec={"rig": t, "mode": o, "offset": k, "channel_lock": lock, "reply": replyk})
         v = R.judge(r, hard_limit=8.0 if lock else 20.0)
         ops = r["res"]["ops"]
         first = next((x for x in ops if not x["ok"]), None)
-        ck.case(("stream", t, o, k, lock), nontrivial=v is not None, sample={"transport": t, "loss": o, "offset": k, "channel_lock": lock, "ops": ops},
-                tags=(f"t={t}", "telnet-stream", f"channel_lock={lock}", "cut-inside-iac" if k in inside else "cut-elsewhere", f"streamloss={o}",
+        ck.case(("stream", t, o, k, lock, replyk), nontrivial=v is not None, sample={"transport": t, "loss": o, "offset": k, "channel_lock": lock, "reply": replyk, "ops": ops},
+                tags=(f"t={t}", "telnet-stream", f"channel_lock={lock}", "loss-at-negotiation-reply" if replyk is not None else "loss-at-byte-offset", "cut-inside-iac" if k in inside else "cut-elsewhere", f"streamloss={o}",
                       "stream:" + ("hang" if r["killed"] else "completed" if v is None else f"{first['op']}->{first['exc']}")))
         for atom, text in (v or []):
-            ck.violation({"kind": "stream", "atom": ["stream"] + atom[:1] + [t], "transport": t, "loss": o, "offset": k, "channel_lock": lock, "inside_command": k in inside, "ops": ops},
-                         f"telnet session lost ({o}) after byte {k}" + (" — strictly inside an IAC command" if k in inside else "") + ": " + text, matcher)
+            where = (f"when negotiation reply #{replyk} is sent (option replies still owed)" if replyk is not None
+                     else f"after byte {k}" + (" — strictly inside an IAC command" if k in inside else ""))
+            ck.violation({"kind": "stream", "atom": ["stream"] + atom[:1] + [t], "transport": t, "loss": o, "offset": k, "channel_lock": lock, "reply": replyk,
+                          "inside_command": k in inside, "ops": ops}, f"telnet session lost ({o}) {where}: " + text, matcher)
     ck.extra["telnet_stream_cases"] = len(cases)
     ck.extra["telnet_stream_offsets_inside_commands"] = sorted(inside)
 
@@ -712,7 +736,8 @@ def run(tier, seed):
     load_own_findings(ck)
     _FINDINGS = ck.findings
     _ACTIVE.clear()
-    ck.rule = ("(1) error maps: every (transport, method, boundary outcome) — 6 transports x 8 methods x 17 outcomes, and for both Telnet transports again "
+    ck.rule = ("(1) error maps: every (transport, method, boundary outcome) — 6 transports x 8 methods x 20 outcomes (incl. 'a complete negotiation command arrives and the send() of "
+               "the reply the transport owes fails'), and for both Telnet transports again "
                "with a control sequence pending (IAC / IAC+verb received: chunks that end strictly inside a 3-byte command) — injected into the REAL "
                "transport through fakes of socket / asyncio streams / pty fileobj+waitpid / paramiko / asyncssh; post-loss pairs (loss, then "
                "every in-domain call) and isalive() after each loss; scripted method sequences of length <= 2 (quick) / 3 (thorough), exhaustive "
@@ -725,9 +750,9 @@ def run(tier, seed):
                "write and every byte offset (quick: every write, first/last 20 offsets, every 3rd in between for long exchanges; thorough: all); "
                "each run with channel_lock False and True (True: the channel lock replaced by a guarded twin whose would-block acquire raises instead of blocking), "
                "followed by isalive() and a SECOND and THIRD operation on the same connection; never-opened connections (operation tried twice). The telnet stream part "
-               "adds 16 channel_lock=True cases with the REAL lock and the real timeout mechanism (thread pool / wait_for, timeout_ops 0.5) in the killable worker. Non-trivial = a loss/fault was delivered; distinct by (transport|platform, stack, op, position, outcome). "
+               "adds 36 cases where the peer resets / closes when the k-th negotiation reply is sent (k = 0..8, both twins) and 16 channel_lock=True cases with the REAL lock and the real timeout mechanism (thread pool / wait_for, timeout_ops 0.5) in the killable worker. Non-trivial = a loss/fault was delivered; distinct by (transport|platform, stack, op, position, outcome). "
                "(3) thorough: real pty child killed / loopback TCP Telnet device (login + negotiation commands) closing by FIN or RST after every byte "
-               "offset of the session / in-process ssh server dropping, at byte offsets.")
+               "offset of the session, and by an RST right behind the bytes (option replies still owed) at every command end and every 3rd offset / in-process ssh server dropping, at byte offsets.")
     ck.trusted = ["Lean 4.33.0 kernel; axioms of every theorem audited ⊆ {propext, Classical.choice, Quot.sound}",
                   "tools/harness/libfakes.py: the fakes stand for the libraries (boundary DOMAIN, post-loss behaviour, aliveness primitive are hand-written "
                   "library behaviour; entries marked (*) are re-observed on the real OS / libraries by the thorough rigs)",
@@ -754,7 +779,7 @@ def run(tier, seed):
         ck.notes.append("widened: method sequences up to length 3 after a broken proof/correspondence")
         part1_sequences(ck, "thorough")
     ck.exhaustive = True
-    ck.extra["exhaustive_scope"] = ("error maps: all 816 (transport, method, outcome) triples + the Telnet rows for both pending control states; telnet streams: every byte offset; sequences: all in-domain method sequences up to length "
+    ck.extra["exhaustive_scope"] = ("error maps: all 960 (transport, method, outcome) triples + the Telnet rows for both pending control states; telnet streams: every byte offset; sequences: all in-domain method sequences up to length "
                                    f"{2 if tier == 'quick' else 3}; sim: every write and byte offset of every listed exchange" + (" (long exchanges strided in quick)" if tier == "quick" else ""))
     ck.notes.append("proof over the modelled error maps; PARTIAL — the maps are validated by exhaustive injection at the library boundary, real OS error timing is observed only")
     return ck.finish()
@@ -821,8 +846,8 @@ def replay(path):
         from harness import c08rigs as R
         from vlib.common import REPO
         lk = bool(v.get("channel_lock"))
-        r = R.run_stream_cases(str(REPO), [(v["transport"], v["loss"], v["offset"], lk)], per_case_limit=8.0 if lk else 20.0, timeout_ops=0.5 if lk else 2.0)[0]
-        r = dict(r, spec={"rig": v["transport"], "mode": v["loss"], "offset": v["offset"], "channel_lock": lk})
+        r = R.run_stream_cases(str(REPO), [(v["transport"], v["loss"], v["offset"], lk, v.get("reply"))], per_case_limit=8.0 if lk else 20.0, timeout_ops=0.5 if lk else 2.0)[0]
+        r = dict(r, spec={"rig": v["transport"], "mode": v["loss"], "offset": v["offset"], "channel_lock": lk, "reply": v.get("reply")})
         print(json.dumps(r, indent=1)[:2500])
         j = R.judge(r, hard_limit=20.0)
         print("verdict:", j)
